@@ -44,9 +44,9 @@ CHECKS.update({
    note=TB + 'Not decided in this revision: text rendering of numbers (readFromRawValue token stream, libstdc++ number formatting is trusted anyway), partially null dates/times, weekday names, string types, value lists, KNX float, JSON format.',
    ref='DESIGN.md 5 (C05)'),
  'C06': dict(
-   technique='CBMC contracts on NumberDataType::writeRawValue (harness-enforced, whole-string frame) + round-trip lemma over the read/write specification functions',
+   technique='CBMC contracts on NumberDataType::writeRawValue (harness-enforced, whole-string frame) + round-trip lemma over the read/write specification functions; decode-then-encode round trip of the extracted DateTimeDataType::readSymbols / writeSymbols for every built-in date/time type; ValueListDataField::writeSymbols against a name/number lookup specification',
    level='proof',
-   text='writeRawValue proved to write exactly the specified bytes, OR-ing bit fields into an existing byte, leaving every other byte of the output unchanged; lemma: encode(decode(bytes)) reproduces the owned bits for every decodable pattern of every valid numeric type shape, null encodes to the canonical replacement pattern; parseInput (C07) gives the text leg for integers.',
+   text='writeRawValue proved to write exactly the specified bytes, OR-ing bit fields into an existing byte, leaving every other byte of the output unchanged; lemma: encode(decode(bytes)) reproduces the owned bits for every decodable pattern of every valid numeric type shape, null encodes to the canonical replacement pattern; parseInput (C07) gives the text leg for integers. Date/time types: for every byte pattern of BTI/HTI/VTI/BTM/HTM/VTM/MIN/TTM/TTH/TTQ/BDA/BDA:3/HDA/HDA:3/BDZ/DAY (DTM in the thorough tier) that decodes (completely non-null or completely null), encoding the decoded text succeeds, has the type length and reproduces the bytes on the bits the type owns; the null value encodes to the replacement pattern; the weekday byte is regenerated as the calendar weekday. Value lists: a name encodes to its value (names are looked up before numbers), a listed number to itself.',
    note=TB + 'Harness-enforced (B2) runs check pre/post but not a DFCC assigns clause; the frame is asserted explicitly over the whole output string. Not decided: float text leg (print/parse identity of libstdc++/libc), date/time/string types.',
    ref='DESIGN.md 5 (C06)'),
  'C10': dict(
